@@ -46,6 +46,8 @@ missed = [m["id"] for m in seeded if m.get("valid") and not m.get("caught")]
 obsolete = [m["id"] for m in seeded if m.get("obsolete")]
 w4 = [m for m in seeded if "-w4-" in m["id"]]
 w4first = sum(1 for m in w4 if m.get("first_verdict") == "caught")
+w5 = [m for m in seeded if "-w5-" in m["id"]]
+w5first = sum(1 for m in w5 if m.get("first_verdict") == "caught")
 sec = r'''
 ---------------------------------------------------------------------------------------------------
 
@@ -221,6 +223,25 @@ Currently ''' + "%d changes, %d valid, %d caught" % (len(seeded), nvalid, ncaugh
   of .conn) in C18; single-hook and all-but-one listeners in C19; dropped properties and an EDIF netlist extended
   through the API in C20.  Two genuine defects surfaced on the way (set_top_instance renaming the definition,
   `_x`-style bus names not surviving the EDIF round trip) and were repaired.
+* Wave 5 (''' + "%d changes, all 20 properties; three kinds asked for: two features that only fail together, an argument of an unusual but legal type or value, state kept across calls / objects / refused calls): %d caught at once" % (len(w5), w5first) + r'''
+  (two verdicts of the first pass were re-taken: they had been produced while the unchanged tree itself still
+  showed the stale-set defect below).  The misses led to: caller-owned collections built before the events
+  ("held" sets and lists) and scenario S12 (pins across a re-point); C03 sanitised twins, empty libraries, a
+  library appended after a first export, copies added after a first export; C04 two compose calls per case and
+  one attribute group per attribute; C05 a parse that follows two rejected inputs and bit 0 of an `&_` bus; C06
+  positional maps in two modules sharing net names; C09 taken identifiers spelled in upper case; C11 pattern
+  lists and two roots; C12 one-shot iterators as starts and re-judging after a connection is removed / moved;
+  C13 empty pattern collections, the empty string and more pattern pairs; the manager's process-wide switches
+  in the state snapshot (C14); C15 readers given open handles (text / binary file, StringIO, BytesIO), intact and
+  cut; C16 with the cyclic collector off inside a case ("closed when the call returns" is then decided by
+  reference counting alone); C17 an instance removed and created again under the EDIF policy; C18 a net whose
+  name contains `unconn`; C19 the pre-state at the re-point announcement and a listener that vetoes the first
+  announcement of every call; C20 reattached pins, refused renames and one net on two bits of a port.  The
+  runner now keeps a confirmed violation as the verdict when other observations of the same run cannot be
+  reproduced from their recorded case (a change that leaks state between cases of one worker process used to
+  end as HARNESS-ERROR).  Genuine defects found on the way and repaired: a stale caller-owned set in
+  `Wire.disconnect_pins_from`, uniquify with very long identifiers and with an un-named shared cell, repeated
+  sibling identifiers written by the EDIF composer after copies were added to an exported netlist.
 '''
 path = os.path.join(V, "DESIGN.md")
 s = open(path).read()
